@@ -5,6 +5,7 @@
   code shows up as a disagreement.
 -/
 import FP.Model.Strings
+import FP.Lemmas.Case
 namespace FP.Props.C14
 open FP FP.Model
 
@@ -167,6 +168,41 @@ theorem replace_self (p : Str) (hp : p ≠ []) (s : Str) : replaceGo p p 0 s = s
           have hl : cs.length ≤ n := by simp at hs; omega
           rw [ih cs hl]
   exact key s.length s (Nat.le_refl _)
+
+/-! ### `upper()` / `lower()` in the assembled evaluator (FP.Model.Eval), receivers within ASCII.
+    Receivers with a character beyond U+007F are outside this model (`unmodelled`); for them the
+    harness compares the implementation with per-character Unicode case mapping (law C14/case-map). -/
+
+section Case
+open FP.Model.Eval FP.Lemmas.Case
+
+/-- case mapping keeps the number of characters, on whole expressions: `s.upper().length() = s.length()` -/
+theorem case_keeps_length (f : Char → Char) (s : Str) : lengthFn (s.map f) = lengthFn s := by
+  simp [lengthFn]
+
+/-- `upper()` is idempotent and `lower()` undoes nothing `upper()` did that `lower()` would not do itself:
+    `s.upper().upper() = s.upper()`, `s.lower().lower() = s.lower()`, `s.upper().lower() = s.lower()` — for every string -/
+theorem case_maps_compose (s : Str) :
+    (s.map asciiUpper).map asciiUpper = s.map asciiUpper ∧
+    (s.map asciiLower).map asciiLower = s.map asciiLower ∧
+    (s.map asciiUpper).map asciiLower = s.map asciiLower := by
+  refine ⟨?_, ?_, ?_⟩ <;> simp [List.map_map, Function.comp_def, asciiUpper_idem, asciiLower_idem, asciiLower_upper]
+
+/-- the result of a case mapping on an ASCII string is an ASCII string (so a chain of `upper()` / `lower()`
+    calls never leaves the modelled fragment) -/
+theorem case_stays_ascii (s : Str) (h : isAscii s = true) :
+    isAscii (s.map asciiUpper) = true ∧ isAscii (s.map asciiLower) = true := by
+  simp only [isAscii, List.all_eq_true, decide_eq_true_eq, List.mem_map, forall_exists_index, and_imp] at h ⊢
+  exact ⟨fun c x hx hc => hc ▸ (ascii_stays_ascii x (h x hx)).1, fun c x hx hc => hc ▸ (ascii_stays_ascii x (h x hx)).2⟩
+
+/-- cardinality on whole expressions: no item gives no item, several items are an error — whatever follows -/
+theorem expr_case_cardinality (env : Env) (n : String) (hn : n = "upper" ∨ n = "lower") :
+    eval env (.fn n .argNil) [] = .ok [] ∧ ∀ a b r, eval env (.fn n .argNil) (a :: b :: r) = .err "not-singleton" := by
+  rcases hn with rfl | rfl <;> simp [eval, isClockFn, apply0, caseOn]
+
+example : eval [] (.fn "upper" .argNil) [strVal "a1-z{".toList] = .ok [strVal "A1-Z{".toList] := by decide +kernel
+
+end Case
 
 example : substring "héllo".toList 1 (some 1) = some "é".toList := by decide
 example : indexOf "日本語".toList "語".toList = 2 := by decide
